@@ -290,8 +290,11 @@ def run_check(modname, tier, seed, only_part=None):
         name = '%s_%s_%s.json' % (pid, part, hashlib.sha1(bucket.encode()).hexdigest()[:8])
         path = os.path.join(VERIF, 'replays', name)
         with open(path, 'w') as f:
+            rcase = v['case']
+            if isinstance(v.get('detail'), dict) and 'replay_case' in v['detail']:
+                rcase = v['detail']['replay_case']      # e.g. the crashing input of a fuzz campaign
             json.dump({'property': pid, 'part': part, 'bucket': bucket, 'message': v['msg'], 'detail': v.get('detail'),
-                       'case': v['case'], 'seed': seed, 'tier': tier, 'shrunk': v.get('shrunk')}, f, indent=1,
+                       'case': rcase, 'seed': seed, 'tier': tier, 'shrunk': v.get('shrunk')}, f, indent=1,
                       sort_keys=True, default=repr)
         lines.append('VIOLATION property=%s replay=%s' % (pid, path))
         sys.stderr.write('  [%s/%s] %s\n' % (part, bucket, v['msg'][:500]))
